@@ -29,6 +29,17 @@ def build_arg(name, td, inputs):
         if name in inputs and inputs[name] is None:
             return None
         return build_arg(name, td.args[0], inputs)
+    if k == "chunks":
+        import collections
+        v = inputs.get(name)
+        raw = bytes.fromhex(v["bytes"]) if isinstance(v, dict) and v.get("bytes") is not None else b""
+        cnt = int(inputs.get(name + "#count", 0) or 0)
+        if cnt <= 0:
+            return collections.deque()
+        cnt = min(cnt, 64)
+        step = max(1, -(-len(raw) // cnt))
+        parts = [bytearray(raw[i * step:(i + 1) * step]) for i in range(cnt)]
+        return collections.deque(parts)
     if k == "list" and td.args[1] is None:
         v = inputs.get(name)
         return list(v["intlist"] or []) if isinstance(v, dict) and "intlist" in v else []
